@@ -405,7 +405,7 @@ func main() {
 			}
 		}
 		modes := []struct{ mode, chunk int }{{modeCASSlice, 0}, {modeCASReader, 1}}
-		sub := r.NewSub("cas-errors", "venum", fmt.Sprintf("%d ActionResults ({0,2} files x {stdout digest+stderr inline, stdout absent+stderr... } x every directory combination x {distinct, colliding}) x batch sizes {1,2,3,1000} x CAS buffer {validating slice, validating 1-byte-chunk reader} x EVERY call index k (FindMissing or Get of a Tree) failing x {INTERNAL, UNAVAILABLE} x {nothing missing, last referenced object missing}", len(specs)))
+		sub := r.NewSub("cas-errors", "venum", fmt.Sprintf("%d ActionResults ({0,2} files x {stdout digest+stderr inline, stdout absent+stderr... } x every directory combination x {distinct, colliding}) x batch sizes {1,2,3,1000} x CAS buffer {validating slice, validating 1-byte-chunk reader} x EVERY call index k (FindMissing or Get of a Tree) failing x {INTERNAL, UNAVAILABLE, NOT_FOUND (a CAS whose Get and FindMissing disagree)} x {nothing missing, last referenced object missing}", len(specs)))
 		done := sub.Timer()
 		d := &driver{r: r, sub: sub, name: "cas-errors"}
 		d.drive(specs, func(fx *fixture, emit func(Case)) {
@@ -420,7 +420,7 @@ func main() {
 						c.Batch, c.Mode, c.Chunk, c.Missing = b, m.mode, m.chunk, ms
 						n := runCase(fx, c).calls // dry run: number of CAS calls without fault
 						for k := 0; k < n; k++ {
-							for _, code := range []string{"Internal", "Unavailable"} {
+							for _, code := range []string{"Internal", "Unavailable", "NotFound"} {
 								c.FailAt, c.FailCode = k, code
 								emit(c)
 							}
